@@ -724,7 +724,19 @@ def c06_cases(tier, seed):
         reads = rng.choice([1, 1, 2])
         if reads == 2:
             keys += rng.choice([["C-y"], ["C-y", "M-y"], ["a", "C-k", "C-y"]]) + ["Enter"] if mode == "emacs" else ["Esc", "p", "Enter"]
-        binds = [("F5", "yankpop")] if rng.random() < 0.15 and mode == "emacs" else []
+        binds = []
+        if rng.random() < 0.3:
+            # commands that do not end a kill / yank run, reachable in BOTH modes only through custom bindings:
+            # yank-pop, yank, Replace(EndOfLine / WholeLine, text), Kill(WholeLine), Noop
+            binds = [("F5", "yankpop"), ("F6", "yank"), ("PageUp", rng.choice(["replaceeol 78", "replacewl 79.e9"])),
+                     ("PageDown", rng.choice(["killwl", "noop"]))]
+            extra = [rng.choice(["F6", "F6", "F5", "PageUp", "PageDown", "p" if mode == "vi" else "C-y", "P" if mode == "vi" else "C-y"])
+                     for _ in range(rng.randint(2, 8))]
+            cut = [i for i, k in enumerate(keys) if k == "Enter"]
+            at = cut[0] if cut else len(keys)
+            for k in extra:
+                keys.insert(rng.randint(min(3, at), at), k)
+                at += 1
         cases.append(Case(keys, mode=mode, reads=reads, binds=binds, initial=mk_initial(rng, 0.2),
                           history=rng.choice([[], ["one", "two"]]),
                           timeout=0 if mode == "vi" else rng.choice(["none", 0]), prompt="> "))
